@@ -39,7 +39,7 @@ def jobs(tier):
         sh = sched.shapes(2, maxtop=3, maxleaves=4, always=True)
         sh = sh + [x for x in sched.shapes(3, maxtop=2, maxleaves=2, always=True) if x not in sh]
     sweep = [("C30", s, 1, "sweep") for s in [("L",), ("L", "L"), (("D", True, ("L",)),), (("D", False, ("L", "L")),)]]
-    return [("C30", s, nc) for s in sh for nc in (0, 1, 2)] + sharded(sweep, 8)
+    return sharded(sweep, 8) + [("C30", s, nc) for s in sh for nc in (0, 1, 2)]      # the long sweep shards first
 
 
 def view(w):
